@@ -196,10 +196,14 @@ type FaultConn struct {
 	once   sync.Once
 	kill   chan struct{}
 	killE  error
+	// rsem admits one goroutine at a time to the inner connection's Read (a Connection is read by one reader): the
+	// goroutine that keeps draining after KillRead and the goroutine of a Read that started just before the kill
+	// must not be inside it together. A channel, not a mutex: waiting for it is durable blocking under synctest.
+	rsem chan struct{}
 }
 
 func NewFaultConn(c mcp.Connection, log *vh.Log, side string) *FaultConn {
-	return &FaultConn{Connection: c, Log: log, Side: side, kill: make(chan struct{})}
+	return &FaultConn{Connection: c, Log: log, Side: side, kill: make(chan struct{}), rsem: make(chan struct{}, 1)}
 }
 
 // KillRead makes the pending and all future Reads fail with err.
@@ -219,8 +223,13 @@ func (f *FaultConn) Read(ctx context.Context) (jsonrpc.Message, error) {
 	default:
 	}
 	ch := make(chan res, 1)
+	innerRead := func() (jsonrpc.Message, error) {
+		f.rsem <- struct{}{}
+		defer func() { <-f.rsem }()
+		return f.Connection.Read(ctx)
+	}
 	go func() {
-		m, e := f.Connection.Read(ctx)
+		m, e := innerRead()
 		ch <- res{m, e}
 		// Once the read side has been killed nobody consumes the inner connection any
 		// more; keep draining it (into the void) so that a live peer writing to an
@@ -228,7 +237,7 @@ func (f *FaultConn) Read(ctx context.Context) (jsonrpc.Message, error) {
 		select {
 		case <-f.kill:
 			for e == nil {
-				_, e = f.Connection.Read(ctx)
+				_, e = innerRead()
 			}
 		default:
 		}
